@@ -56,12 +56,12 @@ func main() {
 		return
 	}
 	r := evidence.New("C12", "exploration")
-	r.Rule("phase pipe: case = (1-3 items, each a seeded directory tree (depth <= 5, empty dirs/files, long / non-ASCII / odd names, relative in-tree symlinks, assorted modes, sizes 0..2.5 MiB) or a single file, " +
+	r.Rule("phase pipe: case = (1-3 items, each a seeded directory tree (depth <= 5, empty dirs/files, long / non-ASCII / odd names, (1 in 2) names repeated across levels with a shallow symlink named like a deeper directory, relative in-tree symlinks, assorted modes, sizes 0..2.5 MiB) or a single file, " +
 		"titles plain / nested / long / non-ASCII / unclean, the path given to Add being the source itself or (1 in 4 single files, 1 in 12 directories) a relative / absolute / chained symbolic link to it, option set over {TarReproducible, PreservePermissions, SkipUnpack, ForceCAS, IgnoreNoName}, intermediate in {none, memory, oci, remote}, umask in {022, 077, 027, 0}, second working directory empty or (1 in 3) already holding an earlier version of the items: same paths or a subset, other bytes, other file modes, other link targets, file<->symlink swaps, directories staying directories; built directly or by an earlier pipeline of another file store); " +
 		"Add -> pack (root kind in {PackManifest v1.1, v1.0, deprecated Pack as artifact manifest, deprecated Pack as image manifest, hand-built Docker v2 manifest, OCI index over two such manifests with the layers split or shared}) -> Copy (-> Copy) into a second file store; restored trees compared with on-disk snapshots of the sources (paths, types, bytes, link targets, modes); " +
 		"phase repro: twin trees differing in timestamps, owners, creation order and hard links must give equal descriptors under TarReproducible; " +
 		"phase tamper: a directory blob with a wrong io.deis.oras.content.digest (or changed archive under the recorded digest) must be refused, the untampered one accepted and restored; " +
-		"phase dup: 2-4 names with equal bytes, with and without ForceCAS. " +
+		"phase dup: 2-4 names with equal bytes, and (1 in 3) a directory together with a plain named file holding the bytes of its tar+gzip blob, either one listed first, Copy concurrency in {default, 1, 2, 8}, with and without ForceCAS. " +
 		"distinct = (tree-shape hashes of the items, option set, intermediate, umask); non-trivial = some tree has >= 1 nested directory, >= 1 symlink or long name and >= 3 files " +
 		"(phase dup: >= 2 equal-bytes names with one media type, so that Copy de-duplicates them)")
 	r.Assume("the checks run as root: permission-denied effects (unreadable sources, unwritable restored directories) do not occur and are not explored")
@@ -99,6 +99,7 @@ func main() {
 		{"repro_timestamps_mattered", int64(r.N(50, 800))},
 		{"dup_restored_by_store", int64(r.N(20, 300))},
 		{"dup_forcecas_deduped", int64(r.N(10, 150))},
+		{"dup_dir_and_archive_restored", int64(r.N(8, 120))},
 		{"dup_restored_under_artifact_manifest", int64(r.N(2, 40))},
 		{"dup_restored_under_docker_manifest", int64(r.N(2, 40))},
 		{"dup_restored_under_index", int64(r.N(2, 40))},
@@ -108,6 +109,7 @@ func main() {
 		{"files_crossing_1MiB", int64(r.N(10, 200))},
 		{"items_added_through_symlink_file", int64(r.N(30, 500))},
 		{"items_added_through_symlink_dir", int64(r.N(12, 250))},
+		{"links_named_like_a_deeper_dir_unpacked", int64(r.N(15, 300))},
 		{"prepopulated_items", int64(r.N(40, 800))},
 		{"prepopulated_files_with_other_mode_replaced", int64(r.N(100, 2000))},
 		{"prepopulated_type_swaps", int64(r.N(20, 400))},
@@ -173,6 +175,9 @@ type item struct {
 	Link      string `json:"added_through_symlink,omitempty"` // the path given to Add is a symbolic link: rel, abs, chain-rel, chain-abs
 	LinkText  string `json:"symlink_text,omitempty"`
 	linkPath  string
+	TwinOf    string `json:"archive_of,omitempty"` // this single file holds the very bytes of that directory item's blob
+	twinOf    *item
+	twinMT    bool   // same media type as the directory blob
 	Old       *tree  `json:"prepopulated_with,omitempty"` // earlier version found in the second working directory
 	PreHow    string `json:"prepopulated_how,omitempty"`  // "direct", "pipeline", "file"
 	oldSnap   map[string]node
@@ -329,7 +334,7 @@ func casePipe(res *worker.Result, rng *rand.Rand, root string, idx int, dupPhase
 		items = append(items, it)
 		return it
 	}
-	to := treeOpts{maxDirs: 7, maxFiles: 12, maxLinks: 4, big: rng.IntN(5) == 0, special: rng.IntN(6) == 0, through: rng.IntN(25) == 0, oddNames: rng.IntN(3) == 0}
+	to := treeOpts{maxDirs: 7, maxFiles: 12, maxLinks: 4, big: rng.IntN(5) == 0, special: rng.IntN(6) == 0, through: rng.IntN(25) == 0, oddNames: rng.IntN(3) == 0, reuse: rng.IntN(2) == 0}
 	if dupPhase {
 		k := 2 + rng.IntN(3)
 		base := genFileTree(rng, treeOpts{big: rng.IntN(8) == 0})
@@ -349,6 +354,20 @@ func casePipe(res *worker.Result, rng *rand.Rand, root string, idx int, dupPhase
 				it.srcPath = first.srcPath
 				it.AddPath = first.srcPath
 			}
+		}
+		if rng.IntN(3) == 0 {
+			// a directory and, under another name, a plain file with the bytes of its tar+gzip blob (site, site.tar.gz)
+			d := addItem(genDirTree(rng, treeOpts{maxDirs: 3, maxFiles: 5, maxLinks: 2}))
+			tw := addItem(&tree{Single: true, Entries: []entry{{Type: 'f', Mode: 0o644}}})
+			tw.Link, tw.linkPath = "", ""
+			if rng.IntN(2) == 0 { // the archive copy lives where its name says, or elsewhere and is given by absolute path
+				tw.AddPath = ""
+				tw.srcPath = filepath.Join(srcWD, filepath.FromSlash(path.Clean(tw.Name)))
+			} else {
+				tw.srcPath = filepath.Join(root, "else", "archive-copy", asciiName(rng, 6))
+				tw.AddPath = tw.srcPath
+			}
+			tw.twinOf, tw.TwinOf, tw.twinMT = d, d.Name, rng.IntN(5) != 0
 		}
 		for j := rng.IntN(3); j > 0; j-- {
 			if rng.IntN(2) == 0 {
@@ -390,6 +409,9 @@ func casePipe(res *worker.Result, rng *rand.Rand, root string, idx int, dupPhase
 		if it.dupOf >= 0 {
 			it.src = items[it.dupOf].src
 			continue
+		}
+		if it.twinOf != nil {
+			continue // written once the directory has been added
 		}
 		if err := os.MkdirAll(filepath.Dir(it.srcPath), 0o755); err != nil {
 			res.Violate("harness:build", err.Error(), wit())
@@ -442,15 +464,48 @@ func casePipe(res *worker.Result, rng *rand.Rand, root string, idx int, dupPhase
 	}
 	defer fs1.Close()
 	o.apply(fs1, false)
-	var layers []ocispec.Descriptor
+	var addOrder []*item // an archive copy is made after its directory has been added; the layer order is that of items
 	for _, it := range items {
+		if it.twinOf == nil {
+			addOrder = append(addOrder, it)
+		}
+	}
+	for _, it := range items {
+		if it.twinOf != nil {
+			addOrder = append(addOrder, it)
+		}
+	}
+	for _, it := range addOrder {
+		if it.twinOf != nil {
+			blob, err := content.FetchAll(ctx, fs1, it.twinOf.desc)
+			if err != nil {
+				fail("descriptor:fetchall", fmt.Sprintf("FetchAll of directory %s: %v", q(it.twinOf.Name), err))
+				return
+			}
+			if err := os.MkdirAll(filepath.Dir(it.srcPath), 0o755); err != nil {
+				fail("harness:build", err.Error())
+				return
+			}
+			if err := os.WriteFile(it.srcPath, blob, 0o644); err != nil {
+				fail("harness:build", err.Error())
+				return
+			}
+			os.Chmod(it.srcPath, 0o644)
+			it.Tree.Entries[0].Size = len(blob)
+			if it.src, err = snapshot(it.srcPath); err != nil {
+				fail("harness:snapshot", err.Error())
+				return
+			}
+			if it.twinMT {
+				it.MediaType = it.twinOf.desc.MediaType
+			}
+		}
 		d, err := fs1.Add(ctx, it.Name, it.MediaType, it.AddPath)
 		if err != nil {
 			pipelineErr("Add", err)
 			return
 		}
 		it.desc = d
-		layers = append(layers, d)
 		if ds := checkDescriptor(fs1, it, res); len(ds) > 0 {
 			for _, d := range ds {
 				fail(d.Key, fmt.Sprintf("item %s: %s", q(it.Name), d.What))
@@ -471,6 +526,10 @@ func casePipe(res *worker.Result, rng *rand.Rand, root string, idx int, dupPhase
 				}
 			}
 		}
+	}
+	var layers []ocispec.Descriptor
+	for _, it := range items {
+		layers = append(layers, it.desc)
 	}
 	manifest, kind, err := packRoot(rng, fs1, layers)
 	mkind = kind
@@ -554,12 +613,10 @@ func casePipe(res *worker.Result, rng *rand.Rand, root string, idx int, dupPhase
 	}
 
 	// ---- compare
-	groups := map[string][]*item{} // equal-bytes single files
+	groups := map[string][]*item{} // names with equal bytes: single files, and a directory blob with its archive copy
 	for _, it := range items {
-		if it.Tree.Single {
-			k := it.src[""].Sum
-			groups[k] = append(groups[k], it)
-		}
+		k := it.desc.Digest.String()
+		groups[k] = append(groups[k], it)
 	}
 	nontrivial := false
 	var shapes []string
@@ -578,7 +635,7 @@ func casePipe(res *worker.Result, rng *rand.Rand, root string, idx int, dupPhase
 		}
 		_, lerr := os.Lstat(dstPath)
 		present := lerr == nil
-		if it.Tree.Single && len(groups[it.src[""].Sum]) > 1 {
+		if len(groups[it.desc.Digest.String()]) > 1 {
 			if !present {
 				continue // judged per group below
 			}
@@ -688,7 +745,14 @@ func casePipe(res *worker.Result, rng *rand.Rand, root string, idx int, dupPhase
 		present, sameMT := 0, 0
 		mts := map[string]int{}
 		var missing []string
-		for _, it := range g {
+		withDir := ""
+		for n, it := range g {
+			if !it.Tree.Single {
+				withDir = "dir-first"
+				if n > 0 {
+					withDir = "archive-first"
+				}
+			}
 			mts[it.desc.MediaType]++
 			if _, err := os.Lstat(filepath.Join(dstWD, filepath.FromSlash(it.Name))); err == nil {
 				present++
@@ -721,6 +785,10 @@ func casePipe(res *worker.Result, rng *rand.Rand, root string, idx int, dupPhase
 			}
 			fail(k, fmt.Sprintf("%d names with equal bytes, ForceCAS off: %d missing after the copy: %s", len(g), len(missing), q(strings.Join(missing, ", "))))
 		default:
+			if sameMT >= 2 && withDir != "" {
+				res.Count("dup_dir_and_archive_restored", 1)
+				res.Observe("dup_dir_and_archive_order_x_concurrency", fmt.Sprintf("%s/%d/unpack=%v", withDir, copyOpts.Concurrency, !o.SkipUnpack))
+			}
 			if sameMT >= 2 {
 				res.Count("dup_restored_by_store", 1)
 				res.Observe("dup_restored_under_manifest_kinds", mkind)
@@ -752,6 +820,10 @@ func casePipe(res *worker.Result, rng *rand.Rand, root string, idx int, dupPhase
 		res.Count("empty_files", int64(st.EmptyFiles))
 		res.Count("long_names", int64(st.LongNames))
 		res.Count("long_link_targets", int64(st.LongTargets))
+		res.Count("names_repeated_across_levels", int64(st.RepeatedNames))
+		if !o.SkipUnpack {
+			res.Count("links_named_like_a_deeper_dir_unpacked", int64(st.LinkLikeDeeperDir))
+		}
 		res.Count("nonascii_names", int64(st.NonASCII))
 		res.Count("files_crossing_1MiB", int64(st.Big))
 		res.MaxOf("max_depth", int64(st.MaxDepth))
@@ -1198,7 +1270,7 @@ func caseRepro(res *worker.Result, rng *rand.Rand, root string, idx int) {
 // ------------------------------------------------------------------- tamper
 
 func caseTamper(res *worker.Result, rng *rand.Rand, root string, idx int) {
-	to := treeOpts{maxDirs: 5, maxFiles: 8, maxLinks: 3, big: rng.IntN(15) == 0, oddNames: rng.IntN(3) == 0}
+	to := treeOpts{maxDirs: 5, maxFiles: 8, maxLinks: 3, big: rng.IntN(15) == 0, oddNames: rng.IntN(3) == 0, reuse: rng.IntN(3) == 0}
 	t := genDirTree(rng, to)
 	title, _ := genTitle(rng)
 	umask := []int{0o022, 0o077}[rng.IntN(2)]
